@@ -32,7 +32,7 @@ m = {
         "guard": "verif (Go build tag)",
         "enable": "go test -tags verif (the harness module replaces github.com/atlassian/gostatsd with /repo's working tree)",
         "baseline_off_cmd": "cd /repo && env -u AWS_CA_BUNDLE PATH=/root/go/pkg/mod/golang.org/toolchain@v0.0.1-go1.23.6.linux-amd64/bin:$PATH GOTOOLCHAIN=local GOFLAGS=-mod=mod GOPROXY=off GOSUMDB=off go test -json -vet=off -count=1 -timeout 25m ./...",
-        "source_commits": ["478010b"],
+        "source_commits": ["478010b", "34fbf49"],
         "add_only": True,
     },
     "engines": [{
